@@ -198,6 +198,27 @@ def run(c):
     require(np.abs(R1[0] - R[j]).max() <= 1e-13 * max(float(np.abs(R[j]).max()), 1e-300),
             "batch_point_equals_single_evaluation_wind_input",
             lambda: f"point {j} max diff={np.abs(R1[0] - R[j]).max()!r}")
+    # ... and on the implicit-roughness path (the roughness of a point is solved from that point's spectrum and wind
+    # only; the iteration is the same sequence of operations alone and in a batch, hence 1e-9 and not solver tolerance);
+    # for the picked point and the last base point (whatever an earlier point of the batch left behind)
+    for jj in sorted({j, n - 1}):
+        sj = W.build(c, Eb[jj:jj + 1], [depth[jj]])
+        spj = W.da([speed_v[jj]], sj)
+        if ints:
+            sj.dataset["variance_density"] = sj.dataset["variance_density"].astype("int64")
+            if it == "u10":
+                spj = spj.astype("int64")
+        R1imp = np.asarray(gen.rate(sj, spj, W.da([wdir_v[jj]], sj), wind_speed_input_type=it).values)
+        if np.isfinite(R1imp).all() or np.isfinite(Rimp[jj]).all():
+            require(np.isfinite(R1imp).all() and np.isfinite(Rimp[jj]).all(),
+                    "batch_point_equals_single_evaluation_wind_input_implicit_roughness",
+                    lambda: f"point {jj}: defined alone={bool(np.isfinite(R1imp).all())} "
+                            f"in batch={bool(np.isfinite(Rimp[jj]).all())}")
+            require(np.abs(R1imp[0] - Rimp[jj]).max() <= 1e-9 * max(float(np.abs(Rimp[jj]).max()), 1e-300),
+                    "batch_point_equals_single_evaluation_wind_input_implicit_roughness",
+                    lambda: f"point {jj} of {nb} max diff={np.abs(R1imp[0] - Rimp[jj]).max()!r} "
+                            f"field max={float(np.abs(Rimp[jj]).max())!r}")
+            classes.append("implicit_roughness_batch_vs_single_compared")
     D1 = np.asarray(dis.rate(s1).values)
     require(np.abs(D1[0] - D[j]).max() <= 1e-13 * max(float(np.abs(D[j]).max()), 1e-300),
             "batch_point_equals_single_evaluation_dissipation",
